@@ -1,11 +1,15 @@
 import slayer
-from props.scommon import scen, preempt_scenario
+from props.scommon import scen, preempt_scenario, pp_exact_fit_scenario
 """C16 - priority-pool keeps batch work and latency-sensitive work on separate pools"""
 
 
 def run(ctx):
     n = 120 if ctx.quick() else 1200
-    slayer.run_scenarios_s(ctx, "C16", scen(ctx, ["priority-pool"], n))
+    def gen():
+        yield from scen(ctx, ["priority-pool"], n)
+        for i in range(n // 3):
+            yield pp_exact_fit_scenario(ctx.seed * 7919 + i)
+    slayer.run_scenarios_s(ctx, "C16", gen())
 
 
 def replay(ctx, rep):
